@@ -30,7 +30,17 @@ def _rand_range(rng, L):
 
 
 def gen_case(rng, quick=True):
-    base = cl.gen_W_case(rng, quick) if rng.random() < 0.7 else cl.gen_terms_case(rng, quick)
+    r0 = rng.random()
+    if r0 < 0.6:
+        base = cl.gen_W_case(rng, quick)
+    elif r0 < 0.8:
+        base = cl.gen_terms_case(rng, quick)
+    else:
+        # sites with conserved charges: the virtual legs of the MPO carry charges that are in general not sorted
+        while True:
+            base = cl.gen_terms_case(rng, quick)
+            if base['site']['kw'].get('conserve') is not None:
+                break
     for k in ('plus_identity', 'UI', 'prefactor', 'apply', 'epc', 'B_is_A_plus_one'):
         base.pop(k, None)
     L, finite = base['L'], base['finite']
@@ -39,7 +49,7 @@ def gen_case(rng, quick=True):
     ops = {}
     has_B = ('WB' in base) or ('tlB' in base)
     # operate on the sum A + B (markers IdR = -1) instead of A
-    if has_B and finite and rng.random() < 0.3:
+    if has_B and rng.random() < 0.3:
         ops['use_sum'] = True
     # a malformed stream: missing outer markers
     if rng.random() < 0.06:
@@ -48,11 +58,13 @@ def gen_case(rng, quick=True):
     ops['plus_hc'] = rng.random() < 0.3
     r = rng.random()
     if finite and chargeless and r < 0.6:
-        d_chi = [1] + [rng.randint(1, 3) for _ in range(L - 1)] + [1]
+        cmax = rng.choice([2, 2, 3])
+        d_chi = [1] + [rng.randint(1, cmax) for _ in range(L - 1)] + [1]
+        # the model evaluates two cuts (the implementation all of them, against the dense oracle)
+        cuts = sorted({0, rng.randrange(L)}) + ([L] if rng.random() < 0.2 else [])
         ops['env'] = {'chi': d_chi, 'seed': rng.randrange(1 << 30), 'Spow': rng.random() < 0.4,
-                      'bra': rng.random() < 0.4, 'cplx': rng.random() < 0.6,
-                      'cuts': list(range(L)) + ([L] if rng.random() < 0.2 else [])}
-    if rng.random() < 0.5:
+                      'bra': rng.random() < 0.4, 'cplx': rng.random() < 0.6, 'cuts': cuts}
+    if rng.random() < (0.3 if chargeless else 0.9):
         ops['sort'] = True
     if rng.random() < 0.45:
         n = rng.choice([1, 2, 2, 2, 3, 3, 0, L, L + 1])
@@ -76,6 +88,8 @@ def gen_case(rng, quick=True):
         ops['decide'] = dec
     if rng.random() < 0.5:
         ops['hermitian'] = {'max_range': rng.choice([None, None, 1, 2]) if not finite else None}
+    if ops.get('use_sum') and rng.random() < 0.7:
+        ops['ui'] = {'dt': [oc.fr_str(Fraction(rng.randint(-2, 2), 4)), oc.fr_str(Fraction(rng.choice([-1, 1, 2]), 4))]}
     if W and rng.random() < 0.6:
         d = base['d']
         start = None
@@ -97,7 +111,7 @@ def gen_cases(rng, n, quick=True):
 def case_hist(case):
     b, ops = case['base'], case['ops']
     h = ['ext_base=' + b['kind'], 'ext_finite=%s' % b['finite'], 'ext_L=%d' % b['L']]
-    for k in ('env', 'sort', 'group', 'enlarge', 'segment', 'decide', 'hermitian', 'termlist', 'use_sum', 'drop_marker'):
+    for k in ('env', 'sort', 'group', 'enlarge', 'segment', 'decide', 'hermitian', 'termlist', 'use_sum', 'drop_marker', 'ui'):
         if k in ops:
             h.append('ext_op=' + k)
     h.append('ext_max_range=%s' % ops.get('max_range'))
@@ -341,10 +355,16 @@ def real_side(case):
         req['cuts'] = e['cuts']
         env = call(lambda: MPOEnvironment(phi, A, psi))
         R['env_init'] = env
+        all_cuts = sorted(set(range(L)) | set(e['cuts']))
+        R['all_cuts'] = all_cuts
         if isinstance(env, Raised):
-            R['full_contraction'] = [env for _ in e['cuts']]
+            R['full_contraction_all'] = [env for _ in all_cuts]
         else:
-            R['full_contraction'] = [call(lambda: complex(env.full_contraction(i0))) for i0 in e['cuts']]
+            R['full_contraction_all'] = [call(lambda: complex(env.full_contraction(i0))) for i0 in all_cuts]
+        R['full_contraction'] = [R['full_contraction_all'][all_cuts.index(i0)] for i0 in e['cuts']]
+        # the two-layer network of the variance has |ket|·|W|²·|bra| edges per site in the model: small cases only
+        cost = max((len(req['psi']['B'][i]) ** 2) * (len(req['A']['W'][i]) ** 2) for i in range(L))
+        req['var'] = bool(cost <= 40000)
         R['ev'] = call(lambda: complex(A.expectation_value(psi)))
         R['variance'] = call(lambda: complex(A.variance(psi)))
         R['var_contr'] = call(lambda: complex(_variance_contr(A, psi)))
@@ -392,6 +412,9 @@ def real_side(case):
         req['numSites'] = ns
         req['isEqualMaxRange'] = range_json(dec.get('is_equal_max_range'))
         mr = _py_range(dec.get('is_equal_max_range'))
+        dsite = float(np.prod(dims)) ** (1.0 / len(dims))
+        n_big = max(_window_sizes(A, B, ns, mr))
+        req['overlapSpec'] = bool(dsite ** n_big <= 3000)
         R['overlap'] = call(lambda: complex(A.overlap(B, understood_infinite=True, num_sites=ns)))
         R['distance'] = call(lambda: complex(A.distance(B, understood_infinite=True, num_sites=ns)))
         R['is_equal'] = call(lambda: bool(A.is_equal(B, max_range=mr)))
@@ -407,8 +430,59 @@ def real_side(case):
         basis = [f'E{a}{b}' for a in range(d) for b in range(d)]
         R['termlist'] = call(lambda: A.to_TermList(basis, start=t['start'], max_range=t['max_range'], cutoff=1e-12,
                                                    ignore=[f'E{a}{b}' for a, b in t['ignore']]))
+        if has_negative_markers(A):
+            A2 = normalised(A)
+            R['termlist_norm'] = call(lambda: A2.to_TermList(basis, start=t['start'], max_range=t['max_range'], cutoff=1e-12,
+                                                             ignore=[f'E{a}{b}' for a, b in t['ignore']]))
+    if 'ui' in ops and cc.markers_everywhere(A) and not A.explicit_plus_hc:
+        dt = oc.parse_gq(ops['ui']['dt'])
+        R['ui'] = call(lambda: A.make_U_I(dt))
+        A2 = normalised(A)
+        R['ui_norm'] = call(lambda: A2.make_U_I(dt))
     R['req'] = req
     return R
+
+
+def _srange(H):
+    r = H.max_range
+    return H.L if (r is None or r == np.inf) else int(r)
+
+
+def has_negative_markers(H):
+    return any(x is not None and x < 0 for x in list(H.IdL) + list(H.IdR))
+
+
+def normalised(H):
+    """the same MPO with every marker spelled as a non-negative index"""
+    H2 = H.copy()
+    chi = H2.chi
+    H2.IdL = [None if x is None else int(x) % chi[b] for b, x in enumerate(H2.IdL)]
+    H2.IdR = [None if x is None else int(x) % chi[b] for b, x in enumerate(H2.IdR)]
+    return H2
+
+
+def terms_json(tl):
+    return [[[[int(o[1]), int(o[2]), int(i)] for o, i in term], oc.gq(s_)] for term, s_ in zip(tl.terms, tl.strength)]
+
+
+def _window_sizes(A, B, ns, mr):
+    """the numbers of sites overlap / is_equal will contract (for bounding the work of the model's specification)"""
+    def srange(H):
+        r = H.max_range
+        return H.L if (r is None or r == np.inf) else int(r)
+
+    def known(r):
+        return r is not None and r < np.inf
+    if A.finite:
+        return [A.L]
+    n_ov = ns if ns is not None else max(A.L + 2 * srange(A), B.L + 2 * srange(B))
+    if known(mr):
+        n_eq = A.L + 2 * int(mr)
+    elif known(A.max_range) and known(B.max_range):
+        n_eq = A.L + 2 * int(max(A.max_range, B.max_range))
+    else:
+        n_eq = 3 * A.L
+    return [n_ov, n_eq]
 
 
 def _variance_contr(A, psi):
@@ -423,6 +497,11 @@ def _cnum(j):
 def _same(a, b, exact, scale=1.0):
     if exact:
         return a == b
+    return abs(a - b) <= 1e-9 * max(1.0, scale, abs(a), abs(b))
+
+
+def _near(a, b, scale=1.0):
+    """comparison with the dense oracle (numpy sums: rounding)"""
     return abs(a - b) <= 1e-9 * max(1.0, scale, abs(a), abs(b))
 
 
@@ -479,7 +558,7 @@ def check(case, R, lo, use_model=True):
             corr(name + '.rejects', 'model rejects, implementation returns an MPO')
             return False
         got, want = norm(to_json(real)), norm(mod)
-        if got != want and not (not exact and norm is cl.norm_mpo_json and cc.mpo_json_close(got, want)):
+        if got != want and not (not exact and cc.mpo_json_close(got, want)):
             for k in ('chi', 'idL', 'idR'):
                 if got[k] != want[k]:
                     corr(f'{name}.{k}', f'impl {got[k]} model {want[k]}')
@@ -499,14 +578,16 @@ def check(case, R, lo, use_model=True):
         if dA is not None:
             want = complex(np.vdot(vb, dA @ vk))
             sc = abs(want) + 1.0
-            for i0, val in zip(ops['env']['cuts'], R['full_contraction']):
+            for i0, val in zip(R['all_cuts'], R['full_contraction_all']):
                 if i0 >= L:
                     if not isinstance(val, Raised):
                         prop('full_contraction.site-outside-chain-accepted', f'full_contraction({i0}) on L={L} returned {val!r}')
                     continue
                 if isinstance(val, Raised):
+                    if A.explicit_plus_hc and phi is not psi and val.name == 'NotImplementedError':
+                        continue    # (repaired behaviour: <bra|H^dagger|ket> cannot be had from <bra|H|ket>)
                     prop(f'full_contraction.error.{val.name}', f'i0={i0}: {val!r}')
-                elif not _same(val, want, exact, sc):
+                elif not _near(val, want, sc):
                     if A.explicit_plus_hc and phi is not psi:
                         prop('full_contraction.explicit_plus_hc.bra_is_not_ket',
                              f'<bra|H + H^dagger|ket> = {want!r}, full_contraction({i0}) = {val!r} (res + conj(res) is only right '
@@ -518,31 +599,35 @@ def check(case, R, lo, use_model=True):
             ev = R['ev']
             if isinstance(ev, Raised):
                 prop(f'expectation_value.error.{ev.name}', repr(ev))
-            elif not _same(ev, wantev, exact, abs(wantev) + 1.0):
+            elif not _near(ev, wantev, abs(wantev) + 1.0):
                 prop('expectation_value.finite.dense-mismatch', f'{ev!r} vs dense {wantev!r}')
             if not A.explicit_plus_hc:
                 wantvar = complex(np.vdot(vk, dA @ (dA @ vk))) - wantev ** 2
                 var = R['variance']
                 if isinstance(var, Raised):
                     prop(f'variance.error.{var.name}', repr(var))
-                elif not _same(var, wantvar, exact, abs(wantvar) + abs(wantev) ** 2 + 1.0):
+                elif not _near(var, wantvar, abs(wantvar) + abs(wantev) ** 2 + 1.0):
                     prop('variance.dense-mismatch', f'{var!r} vs dense {wantvar!r}')
             else:
                 if not isinstance(R['variance'], Raised):
                     prop('variance.explicit_plus_hc-accepted', f'variance of a flagged MPO returned {R["variance"]!r}')
         else:
             # missing outer marker: the environment cannot be initialised
-            if not isinstance(R['env_init'], Raised) and not all(isinstance(v, Raised) for v in R['full_contraction']):
-                prop('full_contraction.missing-marker-accepted', f'IdL[0]/IdR[L] missing, values {R["full_contraction"]}')
+            if not isinstance(R['env_init'], Raised) and not all(isinstance(v, Raised) for v in R['full_contraction_all']):
+                prop('full_contraction.missing-marker-accepted', f'IdL[0]/IdR[L] missing, values {R["full_contraction_all"]}')
         if model:
             for i0, val, mod, spec in zip(ops['env']['cuts'], R['full_contraction'], lo['full_contraction'],
                                           lo['full_contraction_spec'] + [None] * 8):
+                if A.explicit_plus_hc and phi is not psi:
+                    break       # `res + conj(res)` is meaningless for bra != ket (see the oracle); not compared
                 cmp_value(f'full_contraction', val, mod, 1.0)
                 if mod is not None and spec is not None and oc.gq_key(mod) != oc.gq_key(spec):
                     corr('full_contraction_ok', f'i0={i0}: model value {mod} != tri(state, denote, state) {spec}')
             cmp_value('expectation_value_finite', R['ev'], lo['ev'])
-            cmp_value('variance', R['variance'], lo['variance'])
-            if not isinstance(R['variance'], Raised):
+            if 'variance' in lo:
+                facts['variance_model'] = True
+                cmp_value('variance', R['variance'], lo['variance'])
+            if 'variance' in lo and not isinstance(R['variance'], Raised):
                 cmp_value('variance_contr', R['var_contr'], lo['var_contr'])
                 if lo['var_contr'] is not None and oc.gq_key(lo['var_contr']) != oc.gq_key(lo['var_spec']):
                     corr('variance_ok', f'model {lo["var_contr"]} != quad(state, denote, denote, state) {lo["var_spec"]}')
@@ -579,6 +664,13 @@ def check(case, R, lo, use_model=True):
                 d = oc.maxdiff(dense(G, G.L), dA)
                 if d > TOL * max(1.0, float(np.max(np.abs(dA))) if dA.size else 1.0):
                     prop('group_sites.dense-mismatch', f'operator changed by {d:.2e} (n={n})')
+            # a term of range r (in sites) must fit into max_range grouped sites: max_range_new * min(sizes) >= r
+            r0, r1 = A.max_range, G.max_range
+            if r0 is not None and r0 != np.inf and sizes:
+                if r1 is None or r1 == np.inf or r1 * max(min(sizes), 1) < r0 or (r1 - 1) * max(min(sizes), 1) >= r0 > 0:
+                    prop('group_sites.max_range-wrong', f'max_range {r0} -> {r1} for group sizes {sizes}')
+            elif r0 != r1:
+                prop('group_sites.max_range-wrong', f'max_range {r0} -> {r1}')
         elif n >= 1 and R['group_sizes'] is None:
             prop(f'group_sites.error.{G.name}', f'n={n}: {G!r}')
         if model:
@@ -635,6 +727,9 @@ def check(case, R, lo, use_model=True):
         facts['decide'] = True
         mixed = A.finite != B.finite
         ns = dec.get('num_sites')
+        # unrepaired `distance`: <A|A>, <A|B>, <B|B> on their own default windows
+        three_windows = (not finite and ns is None and not mixed
+                         and len({A.L + 2 * _srange(A), B.L + 2 * _srange(B)}) > 1)
         both = A.IdL[0] is not None and B.IdL[0] is not None
         if mixed:
             for k in ('overlap', 'is_equal'):
@@ -648,22 +743,33 @@ def check(case, R, lo, use_model=True):
             dsite = float(np.prod(dims)) ** (1.0 / len(dims))
             ok_markers = (finite and A.IdR[-1] is not None and B.IdR[-1] is not None) or \
                 (not finite and cc.markers_everywhere(A) and cc.markers_everywhere(B))
-            if ok_markers and n_ov >= A.L and dsite ** n_ov <= 1300:
+            if ok_markers and n_ov >= max(A.L, B.L) and dsite ** n_ov <= 1300:
                 wa, wb = attempt('dense', lambda: dense(A, n_ov)), attempt('dense', lambda: dense(B, n_ov))
                 if wa is not None and wb is not None and wa.shape == wb.shape:
                     want = complex(np.vdot(wa.reshape(-1), wb.reshape(-1)))
                     ov = R['overlap']
                     if isinstance(ov, Raised):
                         prop(f'overlap.error.{ov.name}', repr(ov))
-                    elif not _same(ov, want, exact, abs(want) + 1.0):
+                    elif not _near(ov, want, abs(want) + 1.0):
                         prop('overlap.window-not-frobenius', f'overlap {ov!r} on {n_ov} sites vs tr(A^† B) = {want!r} '
                              f'(flags {A.explicit_plus_hc}/{B.explicit_plus_hc})')
                     wd = float(np.sum(np.abs(wa - wb) ** 2))
                     dist = R['distance']
                     if isinstance(dist, Raised):
-                        prop(f'distance.error.{dist.name}', repr(dist))
-                    elif not _same(complex(dist), complex(wd), exact, wd + float(np.sum(np.abs(wa) ** 2)) + 1.0):
-                        prop('distance.window-not-frobenius', f'distance {dist!r} vs |A-B|_F^2 = {wd!r}')
+                        if three_windows:
+                            prop('distance.infinite-default-window.three-different-windows',
+                                 f'{dist!r}: <A|A>, <A|B>, <B|B> are taken on {A.L + 2 * _srange(A)}, {n_ov}, '
+                                 f'{B.L + 2 * _srange(B)} sites; |A-B|_F^2 = {wd!r} on {n_ov} sites')
+                        else:
+                            prop(f'distance.error.{dist.name}', repr(dist))
+                    elif not _near(complex(dist), complex(wd), wd + float(np.sum(np.abs(wa) ** 2)) + 1.0):
+                        n_aa, n_bb = A.L + 2 * srange(A), B.L + 2 * srange(B)
+                        if three_windows:
+                            prop('distance.infinite-default-window.three-different-windows',
+                                 f'distance {dist!r} vs |A-B|_F^2 = {wd!r} on {n_ov} sites: <A|A>, <A|B>, <B|B> are taken on '
+                                 f'{n_aa}, {n_ov}, {n_bb} sites')
+                        else:
+                            prop('distance.window-not-frobenius', f'distance {dist!r} vs |A-B|_F^2 = {wd!r}')
                     facts['decide_window_dense'] = True
             # is_equal: window of the documented size
             mr = _py_range(dec.get('is_equal_max_range'))
@@ -678,7 +784,7 @@ def check(case, R, lo, use_model=True):
                 n_eq = A.L + 2 * int(max(A.max_range, B.max_range))
             else:
                 n_eq = 3 * A.L
-            if ok_markers and dsite ** n_eq <= 1300:
+            if ok_markers and n_eq >= max(A.L, B.L) and dsite ** n_eq <= 1300:
                 wa, wb = attempt('dense', lambda: dense(A, n_eq)), attempt('dense', lambda: dense(B, n_eq))
                 if wa is not None and wb is not None and wa.shape == wb.shape:
                     nrm = float(np.sum(np.abs(wa) ** 2) + np.sum(np.abs(wb) ** 2))
@@ -700,12 +806,15 @@ def check(case, R, lo, use_model=True):
             dist = R['distance']
             md = lo['distance']
             if isinstance(dist, Raised):
-                if md is not None:
+                if md is not None and not three_windows:
                     corr('distance.raises', f'implementation raised {dist!r}, model returns {md}')
             elif md is None:
                 corr('distance.rejects', f'model rejects, implementation returns {dist!r}')
             elif not _same(abs(complex(dist)), abs(_cnum(md)), exact):
-                corr('distance', f'impl {dist!r} model {md}')
+                # the model has one window for <A|A>, <A|B>, <B|B> (repaired behaviour); the unrepaired implementation
+                # takes three default windows, which the oracle reports when they differ
+                if not three_windows:
+                    corr('distance', f'impl {dist!r} model {md}')
             for key in ('is_equal', 'is_equal_BA'):
                 ie = R[key]
                 mi = lo[key]
@@ -730,6 +839,20 @@ def check(case, R, lo, use_model=True):
                 corr('is_hermitian.rejects', f'model rejects, implementation returns {ih}')
             elif exact and ih != mi:
                 corr('is_hermitian', f'impl {ih} model {mi}')
+    # ---- make_U_I on an MPO with negative markers (sum MPOs): metamorphic -------------------------------
+    if 'ui' in R:
+        U, U2 = R['ui'], R['ui_norm']
+        facts['ui_negative_markers'] = has_negative_markers(A)
+        if isinstance(U, Raised) != isinstance(U2, Raised):
+            prop('make_U_I.negative-IdR.raises-differently', f'{U!r} vs {U2!r}')
+        elif not isinstance(U, Raised):
+            j1, j2 = cl.norm_mpo_json(cl.mpo_json(U)), cl.norm_mpo_json(cl.mpo_json(U2))
+            if j1['idL'] != j2['idL'] or j1['idR'] != j2['idR']:
+                prop('make_U_I.negative-IdR.wrong-IdLR',
+                     f'IdR = {list(A.IdR)}: make_U_I returns markers {j1["idL"]}, with the same markers spelled as '
+                     f'non-negative indices {j2["idL"]}')
+            elif j1 != j2:
+                prop('make_U_I.negative-IdR.tensors-differ', 'tensors depend on the spelling of the markers')
     # ---- to_TermList ----------------------------------------------------------------------------------
     if 'termlist' in ops:
         t = ops['termlist']
@@ -737,8 +860,16 @@ def check(case, R, lo, use_model=True):
         facts['termlist'] = True
         d = dims[0]
         got = None
+        if not isinstance(tl, Raised) and 'termlist_norm' in R and not isinstance(R['termlist_norm'], Raised):
+            # the result must not depend on how a marker is spelled (IdR = -1 vs chi - 1)
+            g1, g2 = terms_json(tl), terms_json(R['termlist_norm'])
+            facts['termlist_negative_markers'] = True
+            if g1 != g2:
+                prop('to_TermList.negative-IdR-never-matches',
+                     f'IdR = {list(A.IdR)}: {len(g1)} terms, with the same markers spelled as non-negative indices {len(g2)} terms')
+                tl = R['termlist_norm']         # the model is compared with the run on the normalised markers
         if not isinstance(tl, Raised):
-            got = [[[[int(o[1]), int(o[2]), int(i)] for o, i in term], oc.gq(s_)] for term, s_ in zip(tl.terms, tl.strength)]
+            got = terms_json(tl)
             # oracle: a finite MPO in standard form is the sum of its terms (all of them, nothing ignored)
             std = finite and base.get('markers') and not base.get('partial') and 'drop_marker' not in ops
             if std and t['start'] is None and t['max_range'] is None and not t['ignore'] and not A.explicit_plus_hc \
@@ -788,6 +919,7 @@ def _qlt(a, b):
 def work(cases, use_model=True):
     """records (same format as C11.work_chunk) for a list of ext cases; one driver call"""
     from vlib import core
+    known = {k['signature'] for k in core.load_known_findings() if k.get('property') == 'C11'}
     out = []
     reals, reqs, idx = [], [], []
     for n, case in enumerate(cases):
@@ -806,7 +938,7 @@ def work(cases, use_model=True):
     louts = [None] * len(reals)
     if use_model and reqs:
         try:
-            louts = core.run_driver('C11', reqs)
+            louts = core.run_driver('C11', reqs, timeout=900)
         except core.DriverError as e:
             louts = [{'error': 'driver: ' + str(e)[:400]}] * len(reals)
     for n, R, lo in zip(idx, reals, louts):
@@ -815,4 +947,33 @@ def work(cases, use_model=True):
             rec['fails'], rec['facts'] = check(rec['case'], R, lo, use_model)
         except Exception:  # noqa: BLE001
             rec['fails'], rec['facts'] = [('correspondence', 'ext.harness.exception', traceback.format_exc()[-1500:])], {}
+        seen = set()
+        for f in rec['fails']:
+            if f[0] == 'property' and f[1] not in seen and len(seen) < 2 and f[1] not in known:
+                seen.add(f[1])
+                try:
+                    rec.setdefault('shrunk', {})[f[1]] = shrink(rec['case'], f[1])
+                except Exception:  # noqa: BLE001
+                    pass
     return out
+
+
+def shrink(case, sig):
+    """drop the operations that are not needed for the property failure `sig` (oracle only)"""
+    def fails_same(c):
+        try:
+            with warnings.catch_warnings():
+                warnings.simplefilter('ignore')
+                R = real_side(c)
+                fails, _ = check(c, R, None, use_model=False)
+        except Exception:  # noqa: BLE001
+            return False
+        return any(f[1] == sig for f in fails)
+    cur = case
+    for k in list(cur['ops'].keys()):
+        if k not in cur['ops']:
+            continue
+        cand = dict(cur, ops={kk: v for kk, v in cur['ops'].items() if kk != k})
+        if fails_same(cand):
+            cur = cand
+    return cur
